@@ -16,12 +16,8 @@ _KNOWN = None
 
 
 def known_functions():
-    global _KNOWN
-    if _KNOWN is None:
-        import os
-        p = os.path.join(common.HERE, "tables", "known_functions.txt")
-        _KNOWN = set(l.strip() for l in open(p) if l.strip() and not l.startswith("#"))
-    return _KNOWN
+    from analysis import inline
+    return inline.known_functions()
 
 
 # ---------------------------------------------------------------------------
@@ -545,44 +541,13 @@ class Surface:
         return False
 
     def views(self, bodies):
-        """Functions that did not exist on the pinned tree (rules/tables/known_functions.txt) are helpers introduced
-        by a later change: their code is judged inlined into the known functions that call them (same keys, same
-        guards as before the extraction) and they are skipped standalone when every use is such a call."""
-        from analysis import inline
-        known = known_functions()
-        def top(k):
-            return k.split("::{closure")[0]
-        new = set(top(b.key) for b in bodies if top(b.key) not in known)
-        if not new:
-            return list(bodies)
-        def pol(root_key, callee, depth):
-            return top(callee.key) in new and depth <= 4 and len(callee.blocks) <= 400
-        pol.__name__ = "new_helpers:" + ",".join(sorted(new))
-        g = self.P.callgraph()
-        # a new helper must also be kept standalone if it is used other than by a resolved direct call
-        standalone = set()
-        for b in self.P.bodies.values():
-            for bb, o in b.iter_operands():
-                if o.get("k") == "const" and o.get("fn"):
-                    f = norm(o.get("fn_resolved") or o["fn"])
-                    if top(f) in new:
-                        standalone.add(top(f))
-        called = set()
-        out = []
-        for b in bodies:
-            if top(b.key) in new and top(b.key) not in standalone:
-                continue
-            if b.is_closure:
-                out.append(b)
-                continue
-            v = inline.inlined(self.P, b.key, pol)
-            called |= set(top(k) for k in getattr(v, "inlined_callees", []))
-            out.append(v)
-        for b in bodies:
-            if top(b.key) in new and top(b.key) not in standalone and top(b.key) not in called:
-                out.append(b)      # never inlined anywhere: judge it on its own
-        self.chk.note("helper functions not on the pinned tree, judged inlined into their callers: %s" % sorted(new - standalone))
-        return out
+        """The program was normalised at load time (analysis/inline.normalize_program): functions that did not exist
+        on the pinned tree are judged inlined into the known functions that call them."""
+        hs = getattr(self.P, "normalized_helpers", [])
+        if hs and not getattr(self, "_noted", False):
+            self._noted = True
+            self.chk.note("helper functions not on the pinned tree, judged inlined into their callers: %s" % sorted(hs))
+        return list(bodies)
 
     def sources(self, bodies, select=None):
         bodies = self.views(bodies)
